@@ -369,3 +369,13 @@ Proof.
       * split; [split; exact I|]. split; [split; exact I | exact I].
     + vm_compute. repeat split; reflexivity.
 Qed.
+
+(* ---- value semantics of the store (object-identity effects): every operation writes at most the data set it is called on and appends
+   its results; any other data set of the store - whatever arrays it was built from, sliced from or derived from - stays exactly as it
+   was.  The Python objects can deviate from this only through shared numpy arrays (constructor arguments kept as views, arrays handed
+   on by _update_internal); the check observes such effects as differences to this model and through the implementation-side
+   predicates `operation-changes-other-dataset` and `argument-mutated`. *)
+Theorem C18_operations_touch_only_their_own_data_set : forall v (st : list tds) o k, (k < length st)%nat -> writes o <> Some k ->
+  nth_error (tstep v st o) k = nth_error st k.
+Proof. exact tstep_frame. Qed.
+Print Assumptions C18_operations_touch_only_their_own_data_set.
